@@ -11,6 +11,7 @@ import importlib
 import json
 import os
 import random
+import signal
 import sys
 import time
 import traceback
@@ -24,6 +25,13 @@ sys.path.insert(0, REPO)
 
 from cgsim import core, peers  # noqa: E402
 from cgsim.core import H, Violation, Skip, match_known  # noqa: E402
+
+
+RUN_WALL_LIMIT = 25
+
+
+def _on_alarm(signum, frame):
+    raise core.RunTimeout(f"run abandoned after {RUN_WALL_LIMIT} s wall clock")
 
 
 def load_cg():
@@ -92,17 +100,25 @@ class World:
         ctx.known = self.known
         ctx.prop_id = self.prop_id
         res = {"status": "ok"}
+        # watchdog: a single run that takes longer than RUN_WALL_LIMIT seconds (an exponential library query on an
+        # unlucky circuit, a heavily loaded machine) is abandoned and counted as skipped - never as held or violated
+        signal.signal(signal.SIGALRM, _on_alarm)
+        signal.alarm(RUN_WALL_LIMIT)
         try:
             self.prop.run(case, ctx)
         except Violation as v:
             res = {"status": "violation", "check_id": v.check_id, "detail": v.detail, "sig": v.sig}
         except Skip as s:
             res = {"status": "skip", "why": str(s)}
+        except core.RunTimeout as s:
+            res = {"status": "skip", "why": str(s)}
+            ctx.stats["runs_abandoned_by_watchdog"] += 1
         except RecursionError:
             res = {"status": "harness_error", "trace": "RecursionError\n" + traceback.format_exc()[-1500:]}
         except Exception:
             res = {"status": "harness_error", "trace": traceback.format_exc()[-3000:]}
         finally:
+            signal.alarm(0)
             self.seams.remove()
             peers.uninstall()
         for kind, k, hit in peer.trace:
